@@ -6,7 +6,7 @@ Import ListNotations.
 Open Scope Z_scope.
 
 (* after resize(n) on an open pool: max_size = n and no idle object is kept above the limit *)
-Theorem c07_status_and_release : forall c s t n, pcof s t = OResize n -> closed s = false ->
+Theorem c07_status_and_release : forall c s t n, pcof s t = OResizeL n -> closed s = false ->
   exists s', step c s (Step t) = Some s' /\ maxs s' = Z.of_nat n
              /\ (size s' <= maxs s' \/ vec s' = []).
 Proof. exact t_resize_status. Qed.
@@ -46,7 +46,7 @@ Definition gnb := {| gw := TZero; gc := TNone; gr := TNone |}.
 Definition cfg1 := {| max0 := 1; lifo := false; pre := []; post := []; pcr := []; runtime := false |}.
 Definition cfg2 := {| max0 := 2; lifo := false; pre := []; post := []; pcr := []; runtime := false |}.
 Definition tr_d1 : list label :=
-  [Start 0 (OpResize 0); Step 0; Start 1 (OpGet gnb); Step 1; Step 1; Step 1].
+  [Start 0 (OpResize 0); Step 0; Step 0; Start 1 (OpGet gnb); Step 1; Step 1; Step 1].
 Example c07_nonvacuous_d1 :
   exists s, run cfg1 (init cfg1) tr_d1 = Some s /\ pcof s 1 = PDone RTimeoutWait /\ maxs s = 0
             /\ permits s = 0 /\ live s = 0.
@@ -55,7 +55,7 @@ Proof. eexists. vm_compute. repeat split. Qed.
 Definition tr_d2 : list label :=
   [Start 0 (OpGet gnb); Step 0; Step 0; Step 0; Step 0; Env 0 OOk; Step 0;
    Start 1 (OpGet gnb); Step 1; Step 1; Step 1; Step 1; Env 1 OOk; Step 1;
-   Start 2 (OpResize 1); Step 2; Start 3 (OpResize 2); Step 3;
+   Start 2 (OpResize 1); Step 2; Step 2; Start 3 (OpResize 2); Step 3; Step 3;
    Start 4 (OpGet gnb); Step 4; Step 4; Step 4].
 Example c07_nonvacuous_d2 :
   exists s, run cfg2 (init cfg2) tr_d2 = Some s /\ pcof s 4 = PDone RTimeoutWait /\ maxs s = 2
